@@ -431,7 +431,7 @@ func (ex *Exec) copyElems(st *State, fr *Frame, dst *sliceView, read func(string
 		src := srcLeaves[li]
 		li++
 		inRange := and(app("bvule", dst.off, qi), app("bvult", qi, app("bvadd", dst.off, n)))
-		ex.assume(st, fmt.Sprintf("(forall ((qi (_ BitVec 64))) (! (= (select %s qi) (ite %s %s (select %s qi))) :pattern ((select %s qi))))", na, inRange, src.T, old, na))
+		ex.arrayDef(st, na, inner, ite(inRange, src.T, sel(old, "qi")), "")
 		return Sc{sto(l.T, dst.ref, na), l.S}
 	})
 	ex.setHeapTree(st, AElems, el, nt)
@@ -456,7 +456,7 @@ func (ex *Exec) copyToInterior(st *State, fr *Frame, dst *sliceView, read func(s
 			src := srcLeaves[li]
 			li++
 			inRange := and(app("bvule", dst.off, qi), app("bvult", qi, app("bvadd", dst.off, n)))
-			ex.assume(st, fmt.Sprintf("(forall ((qi (_ BitVec 64))) (! (= (select %s qi) (ite %s %s (select %s qi))) :pattern ((select %s qi))))", na, inRange, src.T, l.T, na))
+			ex.arrayDef(st, na, l.S, ite(inRange, src.T, sel(l.T, "qi")), "")
 			return Sc{na, l.S}
 		})
 		ex.store(st, dst.back, &Arr{nv})
@@ -503,7 +503,7 @@ func (ex *Exec) doAppend(st *State, fr *Frame, c *ssa.CallCommon, args []Val, po
 			ex.assume(st, fmt.Sprintf("(forall ((qi (_ BitVec 64))) (! (= (select %s (bvadd %s qi)) (ite %s %s (select %s (bvadd %s qi)))) :pattern ((select %s (bvadd %s qi)))))", na, base.off, inNew, src.T, oldA, base.off, na, base.off))
 			// fresh
 			nf := ex.vc.Fresh("appendedf", inner)
-			ex.assume(st, fmt.Sprintf("(forall ((qi (_ BitVec 64))) (! (=> (bvult qi %s) (= (select %s qi) (ite %s %s (select %s (bvadd %s qi))))) :pattern ((select %s qi))))", newLen, nf, inNew, src.T, oldA, base.off, nf))
+			ex.arrayDef(st, nf, inner, ite(inNew, src.T, sel(oldA, app("bvadd", base.off, "qi"))), app("bvult", "qi", newLen))
 			return Sc{ite(fits, sto(l.T, base.ref, na), sto(l.T, fresh, nf)), l.S}
 		})
 		ex.setHeapTree(st, AElems, el, nt)
@@ -531,7 +531,7 @@ func (ex *Exec) doAppend(st *State, fr *Frame, c *ssa.CallCommon, args []Val, po
 			_, inner := l.S.ArrParts()
 			oldA := sel(l.T, base.ref)
 			nf := ex.vc.Fresh("moved", inner)
-			ex.assume(st, fmt.Sprintf("(forall ((qi (_ BitVec 64))) (! (=> (bvult qi %s) (= (select %s qi) (select %s (bvadd %s qi)))) :pattern ((select %s qi))))", base.ln, nf, oldA, base.off, nf))
+			ex.arrayDef(st, nf, inner, sel(oldA, app("bvadd", base.off, "qi")), app("bvult", "qi", base.ln))
 			return Sc{sto(l.T, fresh, nf), l.S}
 		})
 		ex.setHeapTree(moved, AElems, el, nt)
@@ -550,4 +550,17 @@ func (ex *Exec) doAppend(st *State, fr *Frame, c *ssa.CallCommon, args []Val, po
 		Sc{ex.vc.Bind("acap2", BV(64), ite(fits, base.cp, ncap)), BV(64)},
 	}}
 	return res
+}
+
+// arrayDef states that array `name` (already declared) has, at every index qi
+// (inside `domain` when given), the element `body` (a term over qi). The
+// command carries a marker so that the renderer can use a lambda definition
+// instead when it searches for candidate counterexamples.
+func (ex *Exec) arrayDef(st *State, name string, s Sort, body string, domain string) {
+	inner := eq(sel(name, "qi"), body)
+	if domain != "" {
+		inner = implies(domain, inner)
+	}
+	q := fmt.Sprintf("(forall ((qi (_ BitVec 64))) (! %s :pattern ((select %s qi))))", inner, name)
+	ex.vc.cmds = append(ex.vc.cmds, fmt.Sprintf("(assert %s) ;LAMBDA %s|%s|%s", implies(st.guard, q), name, s, body))
 }
